@@ -36,6 +36,16 @@ CLAIMS = {
          "sendRequest registers a fresh reply channel under exactly its request's id before writing (monitor invariant of ClientConn.mu: table[id] is a channel keyed id), readRequestLoop sends a response only on the channel registered under that response's id, "
          "deletes exactly that entry and holds no lock across iterations (channel invariant: only a message bearing the key is ever sent on a keyed channel; keyed channels are never closed), hence sendRequest returns only a response bearing its own request id, for every table state and every order of arrivals.",
          "NOT decided: that a response arrives (liveness), FIFO/buffering of channels, uniqueness of ids beyond 2^31 outstanding draws, the callers that draw an id immediately before use. Ghost keys are fixed at the make(chan) site; typeassume: the inbox channel msgRequestCh is not a keyed reply channel.", "6/C06"),
+ 'C03': ("Contract proof of downstream alias resolution: for every state of the two alias tables and every well-formed chunk, Downstream.wireToDownstreamChunk returns either an error or a chunk with the unchanged sequence number, exactly one group per wire group with the same data-point slice, "
+         "the upstream info and every data id resolved to exactly the table entry of the alias used (or the full form unchanged); an alias missing from the table yields an error and never a chunk (loop invariants over the append-built result, per-group resolution proved element-wise). "
+         "assignDataIDAlias (announcing ids seen in full form) never disturbs existing table entries and mints only aliases above the generator's previous value.",
+         "NOT decided: exactly-once / in-order delivery through the forwarding goroutines and 1024-deep channels, metadata fan-in order, ReadDataPoints itself (a chunk taken from the channel but then dropped is not seen), OpenDownstream's pre-registration. Precondition (decoder output invariant, C12): id-or-alias fields hold one of their two known dynamic types.", "6/C03"),
+ 'C04': ("Contract proof of downstream alias assignment and ack numbering kernels: assignUpstreamInfoAlias compares infos by value, returns nil and changes nothing when an equal info is already registered (map-range invariant), otherwise registers exactly one fresh alias (generator value + 1, never a key already present); "
+         "assignDataIDAlias mints only fresh aliases, reports exactly the entries it added and leaves existing entries untouched; AliasGenerator.Next and sequenceNumberGenerator.Next advance by exactly one.",
+         "NOT decided: 'each chunk acknowledged exactly once' and 'last acks before the close request' (cross-goroutine ordering), behaviour across resume, flushAck's buffer swap (not yet under contract), OpenDownstream's pre-registered aliases. Assumption (A5): fewer than 2^32-1 aliases per stream.", "6/C04"),
+ 'C10': ("Contract proof of the connection state machine and its use by Conn: Swap/CompareAndSwap/CompareAndSwapNot implement their tables; 'Closed is terminal' is a rely/guarantee pair (rely assumed across Cond.Wait and, as interference, at every call boundary where the state lock is not held; guarantee = every transition site passes Closed only as target or requires a non-Closed source); "
+         "WaitUntilOrClosed returns ErrConnectionClosed (never waits) on a closed connection; Conn.send returns ErrConnectionClosed when the connection is closed at entry; Conn.reconnect is panic-free for every interleaved Close and never dials once Closed; Conn.close publishes Closed before it waits for the wire lock.",
+         "NOT decided: silence on the wire from other goroutines after Disconnect, at-most-once notifications, goroutine census, stream-level Close/second-Close behaviour (not yet under contract). Interference is modelled only for fields declared guarded, at method-call boundaries and Cond.Wait.", "6/C10"),
 }
 NA_REASON_DEFAULT = "check not built yet (framework under construction; see DESIGN.md section 8)"
 NA = {}
